@@ -40,7 +40,7 @@ def build(kind, s):
         return None
 
 CANDS = ["1.0", "1.0.0", "1", "0.9", "1.1", "2.0", "1.0a1", "1.0.post1", "1.0.dev1", "1.0+x", "1!1.0", "2.0rc1", "1.5", "1.0.1", "3", "0"]
-ENVS_EXTRA_VALUES = ['a"b\'c', 'a\\x22b\'c', "a\\b", 'a"b', "a'b"]
+ENVS_EXTRA_VALUES = ['a"b\'c', 'a\\x22b\'c', "a\\b", 'a"b', "a'b", "caf\u00e9", "caf\\xe9", "\u00fcber", "\\xfcber", "\\u00fcber"]
 ENVS = [dict(os_name=a, sys_platform=c, python_version=d, python_full_version=d + ".1", platform_machine="x86_64", platform_release="5.15",
              platform_system="Linux", platform_version="#1", implementation_name="cpython", implementation_version=d + ".1",
              platform_python_implementation="CPython", extra=e)
